@@ -16,6 +16,7 @@ from ..orch import h
 from .c04 import http_get
 
 ID = "C08"
+TECHNIQUE = 'runtime monitoring - frame condition over consecutive store dumps around every kind-5 event (nothing but referenced own older events vanishes; those are gone from dump, REQ and GET /e/<id>); back-to-back bursts, orderly restart, two workers on one database'
 LEVEL = "exploration"
 RULE = (
     "cases = (backend, seeded history of 12-40 events of 3 authors mixing regular / replaceable targets with deletion "
